@@ -28,3 +28,10 @@ func (s *Service) VerifSwarm() *cluster.Swarm { return s.cluster }
 
 // VerifOnPeerMessage delivers a message received from a peer to the local subscribers.
 func (s *Service) VerifOnPeerMessage(m *message.Message) { s.onPeerMessage(m) }
+
+// VerifAttachConn is VerifAttach that also tells the identifiers of the new connection.
+func (s *Service) VerifAttachConn(c net.Conn) (luid uint64, id string) {
+	conn := s.newConn(c, s.Config.Limit.ReadRate)
+	go conn.Process()
+	return uint64(conn.LocalID()), conn.ID()
+}
